@@ -156,6 +156,8 @@ pub uninterp spec fn derived_from_host_mount(id: int) -> bool;
 /// definitional ghost record (variant `attempt` of new_fsopen): the attempt of this call to create a new instance failed
 pub uninterp spec fn new_instance_attempt_failed(subset: bool) -> bool;
 pub uninterp spec fn clone_attempt_failed() -> bool;
+/// A10: at some moment of the call the directory had no entry of that name (unlinkat succeeded, or unlinkat / openat reported ENOENT)
+pub uninterp spec fn entry_gone(dir: int, name: Seq<u8>) -> bool;
 /// the object the descriptor refers to is a symbolic link (only an O_PATH|O_NOFOLLOW descriptor can be one)
 pub uninterp spec fn is_symlink_object(fd: int) -> bool;
 pub uninterp spec fn kflags64(id: int) -> u64;       // openat2: how.flags as given to the kernel
@@ -164,7 +166,7 @@ pub open spec fn resolve_confined(r: u64) -> bool { r & 0x12u64 == 0x12u64 || r 
 pub open spec fn beneath_noxdev(r: u64) -> bool { r & 0x0bu64 == 0x0bu64 }
 /// definition of the token `resolved_from`: `h` is what the resolver returned for (root, path, nofollow)
 pub proof fn axiom_resolution_result(h: int, root: int, path: Seq<u8>, nofollow: bool)
-    requires lineage(h),          // [C01+C02.resolution_result.only_in_root_handles_are_results]
+    requires lineage(h),          // [C01+C02+C03.resolution_result.only_in_root_handles_are_results]
     ensures resolved_from(h, root, path, nofollow)
 { admit(); }
 // ---- procfs vocabulary (A5: statx mount ids identify mounts)
